@@ -4,13 +4,14 @@
 
 using namespace c11;
 
-// Calibrated bounds (multiples of eps of T); worst ratios observed are recorded in evidence/C11.json
-static const double C_ROUNDTRIP   = 64;  // ref(o, extracted angles) vs input rotation; worst 4.6 (double) / 4.4 (float)
-static const double C_ROUNDTRIP_Q = 64;  // same through extract(Quat); worst 5.5 / 5.1
-static const double C_ANGLE_T     = 32;  // angles with / without translation, modulo 2 pi; worst 1.5 (float: 2*pi_f - 2*pi)
-static const double C_REORDER     = 64;  // worst 5.5 / 5.3
-static const double C_ALGO3       = 64;  // extractEulerXYZ/ZYX, matrices; worst 5.2 / 5.0
-static const double C_ALGO2       = 32;  // extractEuler 2x2/3x3, angle modulo 2 pi; worst 1.6 / 1.9
+// Calibrated bounds (multiples of eps of T).  Worst ratios on the unchanged tree (thorough tier, seed 1,
+// 4.8*10^7 extraction / 2.3*10^7 re-ordering / 5.1*10^7 MatrixAlgo cases per type; recorded in the evidence on every run):
+static const double C_ROUNDTRIP   = 64; // ref(o, extracted angles) vs input rotation: worst 2.02 (double) / 2.74 (float); via toMatrix33 2.38 / 3
+static const double C_ROUNDTRIP_Q = 64; // same through extract(Quat): 2.62 / 3.2; back through toQuat 3.61 / 4.22
+static const double C_ANGLE_T     = 32; // angles with / without translation, modulo 2 pi: 1.1 / 1.47 (float: 2*pi_f - 2*pi when -pi becomes +pi)
+static const double C_REORDER     = 64; // 2.5 / 2.96
+static const double C_ALGO3       = 64; // extractEulerXYZ/ZYX, matrices: 2.5 / 3
+static const double C_ALGO2       = 32; // extractEuler 2x2/3x3, angle modulo 2 pi 1.31 / 2.13, rebuilt matrix 1.25 / 2
 
 // ------------------------------------------------------------------ rotations to extract from
 static std::vector<std::string>
@@ -211,12 +212,13 @@ sub_extract (Ctx& c, uint64_t idx)
         if (!(dq <= C_ROUNDTRIP_Q)) c.fail ("extract." + tn + ":Quat_roundtrip_through_toQuat", idx, qdesc);
     }
     if ((idx & 0xffff) < 24 * 32) c.sample (cl.c_str (), desc);
+    if (c.verbose) std::fprintf (stderr, "[replay] %s\n", desc ().c_str ());
 }
 static const std::vector<std::string> REQ_EXTRACT = concat (concat (order_class_names (), rotation_class_names ()), {"quat_extracted", "translation_changed_an_angle_by_2pi_or_zero_sign"});
-MON_SUB_IDX (sub_extract<double>, "extract_double", 24 * 40000, 24 * 2000000)
+MON_SUB_IDX (sub_extract<double>, "extract_double", 24 * 160000, 24 * 2000000)
     .req (REQ_EXTRACT)
     .over ("24 orders x 32 rotation-class slots (random unit quaternions, exact signed permutation matrices, middle angle at / within 1e-1..1e-15 of gimbal lock in this order, tiny and near-180-degree rotations, multi-period Euler angles), double: Euler(M,o), extract(M33), extract(M44 embedded / translated), extract(Quat)");
-MON_SUB_IDX (sub_extract<float>, "extract_float", 24 * 40000, 24 * 2000000)
+MON_SUB_IDX (sub_extract<float>, "extract_float", 24 * 160000, 24 * 2000000)
     .req (REQ_EXTRACT)
     .over ("same as extract_double for Euler<float>");
 
@@ -267,12 +269,13 @@ sub_reorder (Ctx& c, uint64_t idx)
     c.worst (("reorder." + tn + ".toMatrix33_change_eps").c_str (), dl, idx, desc);
     if (!(dl <= C_REORDER)) c.fail ("reorder." + tn + ":toMatrix33_changed", idx, desc);
     if ((idx & 0xffff) < 8) c.sample (cl.c_str (), desc);
+    if (c.verbose) std::fprintf (stderr, "[replay] %s\n", desc ().c_str ());
 }
 static const std::vector<std::string> REQ_REORDER = concat (order_class_names (), {"target_order_gimbal", "source_angle_classes", "same_order"});
-MON_SUB_IDX (sub_reorder<double>, "reorder_double", 576 * 400, 576 * 40000)
+MON_SUB_IDX (sub_reorder<double>, "reorder_double", 576 * 1000, 576 * 40000)
     .req (REQ_REORDER)
     .over ("all 24x24 (from,to) order pairs x {angle classes of the source order, rotations at / near gimbal lock of the target order}: Euler(e,newOrder)");
-MON_SUB_IDX (sub_reorder<float>, "reorder_float", 576 * 400, 576 * 40000).req (REQ_REORDER).over ("same for Euler<float>");
+MON_SUB_IDX (sub_reorder<float>, "reorder_float", 576 * 1000, 576 * 40000).req (REQ_REORDER).over ("same for Euler<float>");
 
 // ------------------------------------------------------------------ ImathMatrixAlgo.h extractors
 // single angle classes for the 2-D extractors
@@ -481,7 +484,7 @@ sub_algo (Ctx& c, uint64_t idx)
 static const std::vector<std::string> REQ_ALGO = concat (
     angle_class_names (),
     {"fn_extractEulerXYZ", "fn_extractEulerZYX", "fn_extractEuler22", "fn_extractEuler33", "builder_setEulerAngles", "builder_rotate", "builder_Euler_XYZ_toMatrix44", "builder_rotate_x_then_y_then_z", "builder_Euler_ZYX_toMatrix44", "builder_rotate_2d", "builder_setRotation", "with_translation", "no_translation", "angle2d_uniform_pm_pi", "angle2d_multi_period", "angle2d_near_half_turn", "angle2d_near_quarter_turns", "angle2d_tiny_angles", "angle2d_zero"});
-MON_SUB_IDX (sub_algo<double>, "matrixalgo_extractors_double", 4 * 32 * 4000, 4 * 32 * 400000)
+MON_SUB_IDX (sub_algo<double>, "matrixalgo_extractors_double", 4 * 32 * 16000, 4 * 32 * 400000)
     .req (REQ_ALGO)
     .over ("extractEulerXYZ / extractEulerZYX on matrices built by setEulerAngles, rotate, Euler::toMatrix44 (with and without translation) over the 32 angle-class slots; extractEuler(Matrix22|Matrix33) on setRotation / rotate over single-angle classes (uniform, +-4 periods, near +-pi, near quarter turns, tiny, +-0)");
-MON_SUB_IDX (sub_algo<float>, "matrixalgo_extractors_float", 4 * 32 * 4000, 4 * 32 * 400000).req (REQ_ALGO).over ("same for float");
+MON_SUB_IDX (sub_algo<float>, "matrixalgo_extractors_float", 4 * 32 * 16000, 4 * 32 * 400000).req (REQ_ALGO).over ("same for float");
